@@ -23,10 +23,11 @@ RULE = (
     "epsilon callable, fixed step with holes); each configuration is executed in fresh processes under 8 (quick) / ~40 (thorough) "
     "environments: NUMBA_NUM_THREADS in 1..16, OMP/OPENBLAS threads 1/4, PYTHONHASHSEED 0/1/random, output file / temp dir / "
     "output file name already occupied by an earlier different run / other cwd, repeated. In-process seed_reuse case = the same seeded "
-    "simulation run twice from one in-memory seed Solution and once from the seed re-loaded from its file (all digests equal, seed untouched). case = (configuration, environment); non-trivial = run completed with >= 10 updates and digests produced; "
+    "simulation run twice from one in-memory seed Solution and once from the seed re-loaded from its file (all digests equal, seed untouched). In-process history case = simulation X on a Device that was solved before with other options "
+    "(and optionally moved in place) vs X on a freshly built Device moved the same way. case = (configuration, environment); non-trivial = run completed with >= 10 updates and digests produced; "
     "distinct = distinct (configuration, environment); the verdict compares all digests of a configuration"
 )
-REQUIRED_COUNTERS = ["process_runs", "digest_comparisons", "kernel_buffer_checks", "rng_state_checks", "seed_reuse_comparisons"]
+REQUIRED_COUNTERS = ["process_runs", "digest_comparisons", "kernel_buffer_checks", "rng_state_checks", "seed_reuse_comparisons", "history_comparisons"]
 CASE_TIMEOUT = {"quick": 600, "thorough": 1200}
 ASSUMPTIONS = ["one machine, one numba/LLVM build; races are observed only as differing results across thread counts and repetitions"]
 
@@ -40,7 +41,7 @@ def _configs(tier, seed):
     for name in kinds:
         scr = name == "screening"
         nt = 2 if name in ("timedep_callable", "plain_adaptive") else (4 if name == "four_terminals_callable" else 0)
-        dev = zoo.gen_device(rng, n_terminals=nt, n_holes=1 if name == "fixed_holes" else 0, probes=2 if nt else 0, size="small" if not scr else "tiny", smooth=int(rng.choice([0, 5])))
+        dev = zoo.gen_device(rng, n_terminals=nt, n_holes=1 if name == "fixed_holes" else 0, probes=2 if nt else 0, size="small" if not scr else "medium", smooth=int(rng.choice([0, 5])))
         if scr:
             dev["layer"]["lam"], dev["layer"]["d"] = 2.0, 0.1
         o = S.base_options(rng, adaptive=name != "fixed_holes", steps=25 if scr else 80, screening=scr)
@@ -70,6 +71,17 @@ def gen_cases(tier, seed):
     for cfg in _configs(tier, seed):
         if cfg["name"] in ("screening", "plain_adaptive", "timedep_callable"):
             cases.append({"layer": "seed_reuse", "config": cfg["name"], "device": cfg["device"], "options": dict(cfg["options"], output="file"), "drive": cfg["drive"], "cost": 30, "timeout": 900})
+    nh = 4 if tier == "quick" else 12
+    rngh = np.random.default_rng(9_500 + seed)
+    for k in range(nh):
+        # in-process histories: the Device object has been solved (and possibly moved in place) before
+        dev = zoo.gen_device(rngh, n_terminals=[2, 3][k % 2], n_holes=0, probes=0, size="small", smooth=0, angle=float(rngh.uniform(8, 40)))
+        o = S.base_options(rngh, adaptive=bool(k % 2), steps=40)
+        o["terminal_psi"] = ["none", 0.5][(k // 2) % 2]
+        drive = {"A": S.field_spec(rngh, dev, o, "uniform", b=0.25), "currents": S.current_spec(rngh, dev, o, "const", strength=0.2)}
+        ang = float(rngh.uniform(0, 2 * np.pi))
+        cases.append({"layer": "history", "config": f"history{k}", "device": dev, "options": dict(o, output="file"), "drive": drive,
+                      "translate": [[0.37, 3.1, 41.7][(k // 2) % 3] * np.cos(ang), [0.37, 3.1, 41.7][(k // 2) % 3] * np.sin(ang)] if k % 2 == 0 else None, "cost": 20, "timeout": 900})
     return cases
 
 
@@ -128,6 +140,8 @@ def _digests(rr, tm):
 def run_case(spec):
     if spec.get("layer") == "seed_reuse":
         return _run_seed_reuse(spec)
+    if spec.get("layer") == "history":
+        return _run_history(spec)
     import numba
 
     numba_threads = int(numba.get_num_threads())
@@ -237,6 +251,56 @@ def _run_seed_reuse(spec):
         shutil.rmtree(dd, ignore_errors=True)
     return {"violations": V, "counters": C, "classes": ["seed_reuse", "config=" + spec["config"]], "nontrivial": len(runs) == 3 and min(r[2] for r in runs) >= 10,
             "sample": {"config": spec["config"], "runs": [(l, n, d.get("update_states", "")[:16]) for l, d, n in runs]}}
+
+
+def _run_history(spec):
+    """X after Y on one Device object (optionally moved in place in between) must give exactly what X gives on a Device
+    built afresh (and moved the same way) that has never been solved."""
+    import copy
+    import shutil
+
+    def build():
+        d, why = zoo.try_build_device(spec["device"])
+        return d
+
+    def move(d):
+        if spec.get("translate"):
+            size = float(np.ptp(np.asarray(d.film.points), axis=0).max())
+            d.translate(size * spec["translate"][0], size * spec["translate"][1], inplace=True)
+
+    used = build()
+    if used is None:
+        return {"violations": [], "counters": {"refused_mesh": 1}, "classes": ["refused"], "nontrivial": False}
+    y = copy.deepcopy(spec)
+    y["options"].update(terminal_psi=0.0)
+    y["drive"] = {"A": {"kind": "zero"}, "currents": spec["drive"]["currents"]}
+    r0 = sim.run_sim(y, [], device=used)
+    if r0.refused:
+        return {"violations": [], "counters": {"refused_mesh": 1}, "classes": ["refused"], "nontrivial": False}
+    if r0.exception is not None:
+        return {"status": "harness_error", "error": "first run of the history failed: " + repr(r0.exception)[:200]}
+    r0.cleanup()
+    move(used)
+    fresh = build()
+    move(fresh)
+    runs = []
+    for label, d in (("used_device", used), ("fresh_device", fresh)):
+        tm = simmon.TraceMonitor()
+        rr = sim.run_sim(spec, [tm], device=d, keep_dir=True)
+        if rr.refused:
+            return {"violations": [], "counters": {"refused_mesh": 1}, "classes": ["refused"], "nontrivial": False}
+        dg, ups = _digests(rr, tm)
+        runs.append((label, dg, len(ups)))
+        shutil.rmtree(rr.outdir, ignore_errors=True)
+    V, C = [], {"process_runs": 2, "history_comparisons": 1}
+    (la, da, na), (lb, db, nb) = runs
+    for k in sorted(set(da) | set(db)):
+        if da.get(k) != db.get(k):
+            V.append({"kind": "result_depends_on_what_the_device_was_used_for_before", "mechanism": "nondeterministic_" + k,
+                      "detail": {"what": k, "history": "solve(terminal_psi=0), " + ("translate in place, " if spec.get("translate") else "") + "solve", "updates": [na, nb]}})
+            break
+    return {"violations": V, "counters": C, "classes": ["history", "translated=" + str(bool(spec.get("translate"))), "terminal_psi=" + str(spec["options"].get("terminal_psi"))],
+            "nontrivial": min(na, nb) >= 10, "sample": {"config": spec["config"], "updates": [na, nb], "digests_equal": not V}}
 
 
 def finalize(results, tier):
